@@ -28,6 +28,20 @@ def gen_case(g, prop):
                   cfg={'incl': {f: g.random() < 0.7 for f in impl.FLAGS}} if g.random() < 0.4 else None)
     if prop == 'C17':
         pats = [g.choice(T.PATTERNS) for _ in range(g.choice([0, 0, 1, 2]))]
+    if prop in ('C13', 'C14', 'C15', 'C17') and g.random() < 0.6:
+        # patterns built from the tree's own names: directory-qualified globs that empty a sub-directory, single files, directories
+        dirs, files = [], []
+        def names(ch, rel):
+            for c in ch:
+                if 'children' in c: dirs.append(rel + [c['name']]); names(c['children'], rel + [c['name']])
+                else: files.append(rel + [c['name']])
+        names(children, [])
+        for _ in range(g.randint(1, 3)):
+            k = g.random()
+            if dirs and k < 0.45:
+                d = g.choice(dirs); pats.append(g.choice(['**/%s/*.cmake' % d[-1], '**/%s/*' % d[-1], '{INP}/%s/*.cmake' % '/'.join(d), '%s/' % d[-1], '**/%s/*.[cC]*' % d[-1]]))
+            elif files:
+                f = g.choice(files); pats.append(g.choice([f[-1], '**/' + f[-1], '{INP}/' + '/'.join(f), '*' + f[-1][-6:], f[-1].upper() if g.random() < 0.2 else f[-1]]))
     inp = dict(kind='dir', name=dname, children=children, spelled=g.choice(['abs', 'rel', 'dot']) if prop in ('C12', 'C17') else 'abs')
     if prop in ('C12', 'C18', 'C17') and g.random() < 0.2:
         f = g.choice(T.NAMES) + g.choice(['.cmake', '.CMake', '.cmake', '.txt'])
@@ -153,17 +167,17 @@ def check_case(prop, case, sb, drv, key, out, n_orders=3):
             if unreachable and 'index.rst' in files: vios.append(dict(kind='page not reachable from the top index', pages=unreachable[:5]))
         if prop == 'C15' and inp['kind'] == 'dir' and st['recursive'] and not st['auto_exclude']:
             # processed iff neither the file nor a directory on the way is excluded (independent pathspec calls)
-            def rec(ch, rel, alive):
+            def visit(ch, rel, alive):
                 for c in ch:
                     if 'children' in c:
-                        rec(c['children'], rel + [c['name']], alive and not excl(rel + [c['name']], True))
+                        visit(c['children'], rel + [c['name']], alive and not excl(rel + [c['name']], True))
                     elif T.iscm(c['name']):
                         should = alive and not excl(rel + [c['name']], False)
                         page = os.path.join(*(rel + ['.'.join(c['name'].split('.')[:-1]) + '.rst']))
                         if should != (page in files):
                             vios.append(dict(kind='exclusion not honoured', file=rel + [c['name']], should_be_processed=should))
             root_alive = not spec.match_file(os.path.join(real['abs_inputs'][0], ''))
-            rec(inp['children'], [], root_alive)
+            visit(inp['children'], [], root_alive)
         if prop == 'C12':
             hc = (st.get('headers') or ['#'])[0]
             for relf in order:
